@@ -809,6 +809,17 @@ func runC18(r *Rec) {
 	h.collScenarios()
 }
 
+// collFor runs the spending-pool and collectives scenarios (the collectives EndBlocker included) inside the check of another
+// property: C03 - the end of a block debits no user and loses none of its recorded bonds
+func collFor(r *Rec, prop string, alias map[string]string) {
+	r.OnlyProp, r.Alias = prop, alias
+	h := c18Setup(r)
+	h.spendScenarios()
+	h.collScenarios()
+	r.OnlyProp, r.Alias = "", nil
+	r.Mark("collectives done")
+}
+
 // ubiFor runs the UBI scenarios (records around their period boundaries, failing deposits, the annual gate - also closing
 // in the middle of a block) inside the check of another property: C13 bounds what UBI may mint.
 func ubiFor(r *Rec, prop string) {
